@@ -56,11 +56,10 @@ class State:
             a = self.actors[pid]
             k = ""
             for sl in a.slots:
-                if isinstance(sl, tuple):
-                    c = self.comms[sl[1]]
-                    k += "M" if (c["src"] and c["dst"]) else "U"
-                else:
-                    k += sl
+                k += self._peer(sl[1]) if isinstance(sl, tuple) else sl
+            m = a.micro[0] if (a.alive and a.micro) else None
+            if m is not None and m[0] in ("CWT", "QWT") and m[1] is None:
+                k += ":w" + self._peer(a.last)
             s.append("A%d:%s:%d:%s:l%d:k%s:p%s;" % (pid, a.pc if a.alive else "X", a.nt, ",".join(a.log), a.local, k,
                                                     "-" if a.res is None else int(a.res)))
         if self.vars:
@@ -82,6 +81,12 @@ class State:
         if self.failed:
             s.append("ASSERTFAIL;")
         return "".join(s)
+
+    def _peer(self, cid):
+        c = self.comms[cid]
+        if not (c["src"] and c["dst"]):
+            return "U"
+        return "M%d>%d=%d" % (c["src"], c["dst"], c["payload"])
 
     def _centry(self, cid):
         c = self.comms[cid]
